@@ -110,7 +110,7 @@ pub fn hash_of<T: Hash + ?Sized>(t: &T) -> u64 {
 }
 
 /// Counters collected while exploring. One per shard; merged at the end.
-#[derive(Debug, Default, Clone)]
+#[derive(Debug, Default, Clone, serde::Serialize, serde::Deserialize)]
 pub struct Stats {
     pub evaluations: u64,
     pub nontrivial: HashSet<u64>,
@@ -198,7 +198,7 @@ impl Stats {
 }
 
 /// A violation found by a check: a root-cause signature, the (shrunk) case and what went wrong.
-#[derive(Debug, Clone)]
+#[derive(Debug, Clone, serde::Serialize, serde::Deserialize)]
 pub struct Violation {
     pub sig: String,
     pub lane: String,
